@@ -129,10 +129,11 @@ def inverse_haversine_radians(
     x0 = start.longitude * math.pi / 180
     y0 = start.latitude * math.pi / 180
 
-    final_lat = math.asin(
+    # Clamp against float rounding just outside asin's domain (destinations on a pole)
+    final_lat = math.asin(max(-1., min(1., (
         math.sin(y0) * math.cos(_rad)
         + math.cos(y0) * math.sin(_rad) * math.cos(angle_radians)
-    )
+    ))))
     final_lon = x0 + math.atan2(
         math.sin(angle_radians) * math.sin(_rad) * math.cos(y0),
         math.cos(_rad) - math.sin(y0) * math.sin(final_lat),
